@@ -131,7 +131,8 @@ structure Res (α : Type) where
   template : String
   /-- the node attribute `position` (`cg_coord`) -/
   pos : V3 α
-  resid : Nat
+  /-- the node key of the residue in the residue graph (what `built_nodes` collects) -/
+  node : Nat
   /-- nodes of the residue's fragment graph with their atom names, in node order -/
   atoms : List Atom
   /-- the angles the optimiser of `orient_template` returned for this residue (oracle) -/
@@ -157,13 +158,13 @@ def placeRes (f : α) (templates : List (String × Template α)) (r : Res α) : 
   else some []
 
 /-- `Backmap._place_init_coords`: the assignments `molecule.nodes[atom]["position"] = …` in the order they
-are made, and `built_nodes` (the resids of the residues handled) -/
+are made, and `built_nodes` (the node keys of the residues handled) -/
 def placeInitCoords (f : α) (templates : List (String × Template α)) :
     List (Res α) → Option (List (Nat × V3 α) × List Nat)
   | [] => some ([], [])
   | r :: rest =>
     match placeRes f templates r, placeInitCoords f templates rest with
-    | some here, some (later, built) => some (here ++ later, if r.backmap then r.resid :: built else built)
+    | some here, some (later, built) => some (here ++ later, if r.backmap then r.node :: built else built)
     | _, _ => none
 
 end ring
